@@ -30,7 +30,7 @@ func Equal(a, b any) bool { //nolint: gocyclo
 	case reflect.Bool:
 		return ra.Bool() == rb.Bool()
 	case reflect.Int, reflect.Int8, reflect.Int16, reflect.Int32, reflect.Int64,
-		reflect.Uint, reflect.Uint8, reflect.Uint16, reflect.Uint32, reflect.Uint64:
+		reflect.Uint, reflect.Uint8, reflect.Uint16, reflect.Uint32, reflect.Uint64, reflect.Uintptr:
 		return compareInts(ra, rb) == 0
 	case reflect.Float32, reflect.Float64:
 		return ra.Convert(float64Type).Float() == rb.Convert(float64Type).Float()
@@ -89,7 +89,7 @@ func Less(a, b any) bool {
 	case reflect.Bool:
 		return !ra.Bool() && rb.Bool()
 	case reflect.Int, reflect.Int8, reflect.Int16, reflect.Int32, reflect.Int64,
-		reflect.Uint, reflect.Uint8, reflect.Uint16, reflect.Uint32, reflect.Uint64:
+		reflect.Uint, reflect.Uint8, reflect.Uint16, reflect.Uint32, reflect.Uint64, reflect.Uintptr:
 		return compareInts(ra, rb) < 0
 	case reflect.Float32, reflect.Float64:
 		return ra.Convert(float64Type).Float() < rb.Convert(float64Type).Float()
@@ -110,7 +110,7 @@ func joinKind(a, b reflect.Kind) reflect.Kind { //nolint: gocyclo
 			return reflect.Slice
 		}
 	case reflect.Int, reflect.Int8, reflect.Int16, reflect.Int32, reflect.Int64,
-		reflect.Uint, reflect.Uint8, reflect.Uint16, reflect.Uint32, reflect.Uint64:
+		reflect.Uint, reflect.Uint8, reflect.Uint16, reflect.Uint32, reflect.Uint64, reflect.Uintptr:
 		if isIntKind(b) {
 			return reflect.Int64
 		}
@@ -136,7 +136,7 @@ func isIntKind(k reflect.Kind) bool {
 
 func isUintKind(k reflect.Kind) bool {
 	switch k {
-	case reflect.Uint, reflect.Uint8, reflect.Uint16, reflect.Uint32, reflect.Uint64:
+	case reflect.Uint, reflect.Uint8, reflect.Uint16, reflect.Uint32, reflect.Uint64, reflect.Uintptr:
 		return true
 	default:
 		return false
